@@ -333,7 +333,7 @@ fn(VA, 'repeat', trait='NaturalArray', self_ty='VecArray', status='B', props=['C
    mirror='chk_repeat', note='Vec::extend(repeat_n(..)) is outside Verus; bounded check of the real body')
 fn(VA, 'connected_components', trait='NaturalArray', self_ty='VecArray', status='P', props=['C07', 'C06', 'C01', 'C20'],
    requires=['sources@.len() == targets@.len()', 'in_bounds(sources@, n as int)', 'in_bounds(targets@, n as int)'],
-   ensures=[('C07.connected_components', 'is_coeq(r.0@, r.1 as int, sources@, targets@, n as int)')])
+   ensures=[('C07.connected_components', 'is_coeq(r.0@, r.1 as int, sources@, targets@, n as int)'), ('C07.connected_components-count', 'r.1 <= n')])
 fn(VA, 'bincount', trait='NaturalArray', self_ty='VecArray', status='P', props=['C07'],
    requires=['in_bounds(self@, size as int)'],
    ensures=[('C07.bincount-len', 'r@.len() == size'),
